@@ -51,8 +51,9 @@ def r5(ctx):
     from . import c05, c09
     c09.r5(ctx, AT4_API); c09.r5(ctx, AT5_API)
     c05.r1_ability(ctx)
-    from . import c04
+    from . import c04, c15
     c04.quick_timer_duration(ctx, "C04.R8")
+    c15.r3(ctx)
     new = ctx.obligations[before:]
     del ctx.obligations[before:]
     n_ok = 0
@@ -266,7 +267,7 @@ def skeleton(ctx, f: Fn):
                     pol = next((k.value for k in x.keywords if k.arg == "retry_policy"), x.args[1] if len(x.args) > 1 else None)
                     pe = f.expand(pol, n) if pol is not None else None
                     effects.append(("send", (ctx.repo.qual(f.module, pe) or norm_text(pe)).split(".")[-1] if pe is not None else "?", n))
-                elif d.startswith("self._send_") or d == "_notify_subscribers" or d.endswith(".update_ac_status") or d.endswith("_heartbeat_manager.start") or d.endswith("_heartbeat_manager.stop") or d == "self._socket.close":
+                elif d.startswith("self._send_") or d == "_notify_subscribers" or d.endswith(".update_ac_status") or d.startswith("self._heartbeat_manager.") or (d.startswith("self._socket.") and d.count(".") == 2) or d in ("self.shutdown", "self.init"):
                     effects.append(("call", _norm(d), n))
             elif isinstance(x, ast.Raise) and x.exc is not None:
                 effects.append(("raise", norm_text(x.exc.func if isinstance(x.exc, ast.Call) else x.exc), n))
